@@ -69,5 +69,338 @@ theorem Dominates.trans {gs : List (Sense × (M → Int))} {a b c : M}
   obtain ⟨w1, q, hq, s1⟩ := h1
   exact ⟨fun g hg => Sense.le_trans' g.1 (w1 g hg) (h2.1 g hg), q, hq, Sense.lt_le' q.1 s1 (h2.1 q hq)⟩
 
+/-! ### the inner loop: improve the current model until nothing dominates it -/
+
+/-- solver state inside the inner loop: whatever has been asserted since its start is implied by
+    "dominates the last model" -/
+def IInv (A : M → Prop) (obj : Nat → M → Int) (goals : List (Nat × Goal)) (outer cdE : List Constraint)
+    (mk : List Nat) (bd : Bool) (last : Option M) (s : Solver M) : Prop :=
+  s.marks = mk ∧ s.bad = bd ∧ ∃ added, s.stack = outer ++ added ∧
+    ∀ c ∈ added, ∀ m, Feas A obj outer cdE m → DomLast (specGoals obj goals) last m → c.holds obj m = true
+
+def InnerPost (A : M → Prop) (obj : Nat → M → Int) (goals : List (Nat × Goal)) (outer cdE : List Constraint)
+    (mk : List Nat) (bd : Bool) (r : Outcome (Option M) × Solver M) : Prop :=
+  r.1 = .fuel ∨
+  ∃ fin, r.1 = .done fin ∧
+    (∀ p, fin = some p → Feas A obj outer cdE p ∧
+      ∀ m, Feas A obj outer cdE m → ¬ Dominates (specGoals obj goals) m p) ∧
+    (fin = none → ∀ m, ¬ Feas A obj outer cdE m) ∧
+    r.2.marks = mk ∧ r.2.bad = bd ∧ ∃ added, r.2.stack = outer ++ added
+
+theorem paretoInner_spec (hO : OracleSpec A obj o) (mx : Mixin) (goals : List (Nat × Goal))
+    (cd outer : List Constraint) (mk : List Nat) (bd : Bool) :
+    ∀ (n : Nat) (last : Option M) (s : Solver M),
+      IInv A obj goals outer (effExtra mx cd) mk bd last s →
+      (∀ p, last = some p → Feas A obj outer (effExtra mx cd) p) →
+      InnerPost A obj goals outer (effExtra mx cd) mk bd (paretoInner o obj mx goals cd n last s) := by
+  intro n
+  induction n with
+  | zero => intro last s _ _; exact Or.inl rfl
+  | succ n ih =>
+    intro last s hI hlast
+    obtain ⟨h1, h2, added, h3, h4⟩ := hI
+    have key : ∀ (nn : Nat) (cs : List Constraint),
+        (∀ c, c ∈ cs ↔ (c ∈ outer ∨ c ∈ added ∨ c ∈ effExtra mx cd ∨ c ∈ paretoStepCs obj goals last)) →
+        (∀ m, o nn cs = some m → Feas A obj outer (effExtra mx cd) m ∧ DomLast (specGoals obj goals) last m) ∧
+        (o nn cs = none → ∀ m, Feas A obj outer (effExtra mx cd) m → ¬ DomLast (specGoals obj goals) last m) := by
+      intro nn cs hcs
+      refine ⟨?_, ?_⟩
+      · intro m hm
+        obtain ⟨ha, hc⟩ := (hO nn cs).1 m hm
+        refine ⟨⟨ha, fun c hc' => hc c ((hcs c).2 (Or.inl hc')),
+          fun c hc' => hc c ((hcs c).2 (Or.inr (Or.inr (Or.inl hc'))))⟩, ?_⟩
+        exact (stepCs_hold goals last m).1 (fun c hc' => hc c ((hcs c).2 (Or.inr (Or.inr (Or.inr hc')))))
+      · intro hn m hm hd
+        refine (hO nn cs).2 hn m hm.1 ?_
+        intro c hc
+        rcases (hcs c).1 hc with hc | hc | hc | hc
+        · exact hm.2.1 c hc
+        · exact h4 c hc m hm hd
+        · exact hm.2.2 c hc
+        · exact (stepCs_hold goals last m).2 hd c hc
+    -- the two mix-ins differ only in where the step constraints go
+    have common : ∀ (r : Option M) (s1 : Solver M) (added' : List Constraint),
+        ((∀ m, r = some m → Feas A obj outer (effExtra mx cd) m ∧ DomLast (specGoals obj goals) last m) ∧
+         (r = none → ∀ m, Feas A obj outer (effExtra mx cd) m → ¬ DomLast (specGoals obj goals) last m)) →
+        s1.marks = mk → s1.bad = bd → s1.stack = outer ++ added' →
+        (∀ c ∈ added', c ∈ added ∨ c ∈ paretoStepCs obj goals last) →
+        (r = none → InnerPost A obj goals outer (effExtra mx cd) mk bd (Outcome.done last, s1)) ∧
+        (∀ m, r = some m →
+          InnerPost A obj goals outer (effExtra mx cd) mk bd (paretoInner o obj mx goals cd n (some m) s1)) := by
+      intro r s1 added' hk e1 e2 e3 hsub
+      refine ⟨?_, ?_⟩
+      · intro hr
+        right
+        refine ⟨last, rfl, ?_, ?_, e1, e2, added', e3⟩
+        · intro p hp
+          refine ⟨hlast p hp, ?_⟩
+          intro m hm hd
+          exact hk.2 hr m hm (fun p' hp' => by rw [hp] at hp'; cases hp'; exact hd)
+        · intro hp m hm
+          exact hk.2 hr m hm (fun p' hp' => by rw [hp] at hp'; cases hp')
+      · intro m hr
+        obtain ⟨hfm, hdm⟩ := hk.1 m hr
+        refine ih (some m) s1 ⟨e1, e2, added', e3, ?_⟩ (fun p hp => by cases hp; exact hfm)
+        intro c hc m' hm' hd'
+        have hd'' : DomLast (specGoals obj goals) last m' := by
+          intro p hp
+          exact Dominates.trans (hd' m rfl) (hdm p hp)
+        rcases hsub c hc with hc | hc
+        · exact h4 c hc m' hm' hd''
+        · exact (stepCs_hold goals last m').2 hd'' c hc
+    cases mx with
+    | sua =>
+      have hk := key s.calls (s.stack ++ (cd ++ paretoStepCs obj goals last)) (by
+        intro c; simp [h3, effExtra])
+      simp only [paretoInner, Solver.solve]
+      split
+      · rename_i hr
+        refine (common _ _ added hk ?_ ?_ ?_ (fun c hc => Or.inl hc)).1 hr
+        · exact h1
+        · exact h2
+        · exact h3
+      · rename_i m hr
+        refine (common _ _ added hk ?_ ?_ ?_ (fun c hc => Or.inl hc)).2 m hr
+        · exact h1
+        · exact h2
+        · exact h3
+    | incr =>
+      obtain ⟨a1, a2, a3⟩ := addAll_props s (paretoStepCs obj goals last)
+      have hk := key (s.addAll (paretoStepCs obj goals last)).calls
+        ((s.addAll (paretoStepCs obj goals last)).stack ++ []) (by
+        intro c; simp [a1, h3, effExtra])
+      simp only [paretoInner, Solver.solve]
+      split
+      · rename_i hr
+        refine (common _ _ (added ++ paretoStepCs obj goals last) hk ?_ ?_ ?_ (fun c hc => List.mem_append.1 hc)).1 hr
+        · show (s.addAll (paretoStepCs obj goals last)).marks = mk
+          rw [a2, h1]
+        · show (s.addAll (paretoStepCs obj goals last)).bad = bd
+          rw [a3, h2]
+        · show (s.addAll (paretoStepCs obj goals last)).stack = _
+          simp only [a1, h3, List.append_assoc]
+      · rename_i m hr
+        refine (common _ _ (added ++ paretoStepCs obj goals last) hk ?_ ?_ ?_ (fun c hc => List.mem_append.1 hc)).2 m hr
+        · show (s.addAll (paretoStepCs obj goals last)).marks = mk
+          rw [a2, h1]
+        · show (s.addAll (paretoStepCs obj goals last)).bad = bd
+          rw [a3, h2]
+        · show (s.addAll (paretoStepCs obj goals last)).stack = _
+          simp only [a1, h3, List.append_assoc]
+
+/-! ### the outer loop: block what was found, search again -/
+
+/-- blocking clauses of the models found so far -/
+def blocks (obj : Nat → M → Int) (goals : List (Nat × Goal)) (found : List M) : List Constraint :=
+  found.map (fun p => Constraint.disj (paretoAtoms obj true goals p))
+
+/-- what was yielded for the models `found` -/
+def accOf (obj : Nat → M → Int) (goals : List (Nat × Goal)) (found : List M) : List (M × List Int) :=
+  found.map (fun p => (p, goals.map (fun (gi, _) => obj gi p)))
+
+/-- feasible and strictly better than every model found so far on some objective -/
+def FeasB (A : M → Prop) (obj : Nat → M → Int) (goals : List (Nat × Goal)) (base : List Constraint)
+    (found : List M) (m : M) : Prop :=
+  Feas A obj base [] m ∧ ∀ p ∈ found, StrictSome (specGoals obj goals) m p
+
+theorem blocks_hold (goals : List (Nat × Goal)) (found : List M) (m : M) :
+    (∀ c ∈ blocks obj goals found, c.holds obj m = true) ↔ ∀ p ∈ found, StrictSome (specGoals obj goals) m p := by
+  unfold blocks
+  simp only [List.mem_map, forall_exists_index, and_imp, forall_apply_eq_imp_iff₂]
+  constructor
+  · intro h p hp; exact (strict_disj_holds goals p m).1 (h p hp)
+  · intro h p hp; exact (strict_disj_holds goals p m).2 (h p hp)
+
+theorem pop_of_marks (s : Solver M) (k : Nat) (ms : List Nat) (h : s.marks = k :: ms) :
+    s.pop.stack = s.stack.take k ∧ s.pop.marks = ms ∧ s.pop.bad = s.bad := by
+  simp only [Solver.pop, h]; exact ⟨rfl, rfl, rfl⟩
+
+/-- shape of the solver / client data between two rounds of the outer loop -/
+def OuterSt (obj : Nat → M → Int) (goals : List (Nat × Goal)) (mx : Mixin) (base : List Constraint)
+    (marks0 : List Nat) (bad0 : Bool) (found : List M) (cd : List Constraint) (s : Solver M) : Prop :=
+  s.marks = base.length :: marks0 ∧ s.bad = bad0 ∧
+  match mx with
+  | .sua => cd = blocks obj goals found ∧ s.stack = base
+  | .incr => s.stack = base ++ blocks obj goals found
+
+theorem feasB_iff {goals : List (Nat × Goal)} {mx : Mixin} {base : List Constraint} {marks0 : List Nat}
+    {bad0 : Bool} {found : List M} {cd : List Constraint} {s : Solver M}
+    (h : OuterSt obj goals mx base marks0 bad0 found cd s) (m : M) :
+    Feas A obj s.stack (effExtra mx cd) m ↔ FeasB A obj goals base found m := by
+  obtain ⟨_, _, h3⟩ := h
+  cases mx with
+  | sua =>
+    obtain ⟨hcd, hst⟩ := h3
+    simp only [effExtra, hcd, hst, FeasB, Feas]
+    rw [blocks_hold]
+    constructor
+    · rintro ⟨a, b, c⟩; exact ⟨⟨a, b, by simp⟩, c⟩
+    · rintro ⟨⟨a, b, _⟩, c⟩; exact ⟨a, b, c⟩
+  | incr =>
+    simp only at h3
+    simp only [effExtra, h3]
+    rw [Feas_append]
+    simp only [FeasB, Feas]
+    rw [blocks_hold]
+    constructor
+    · rintro ⟨a, b, c⟩; exact ⟨⟨a, b, by simp⟩, c⟩
+    · rintro ⟨⟨a, b, _⟩, c⟩; exact ⟨a, b, c⟩
+
+theorem costs_eq_of (gs : List (Sense × (M → Int))) (a b : M) (h : costs gs a = costs gs b) :
+    ∀ g ∈ gs, g.2 a = g.2 b := by
+  unfold costs at h
+  induction gs with
+  | nil => intro g hg; cases hg
+  | cons x xs ih =>
+    simp only [List.map, List.cons.injEq] at h
+    intro g hg
+    rcases List.mem_cons.1 hg with rfl | hg
+    · exact h.1
+    · exact ih h.2 g hg
+
+theorem costs_eq_iff (gs : List (Sense × (M → Int))) (a b : M) :
+    costs gs a = costs gs b ↔ ∀ g ∈ gs, g.2 a = g.2 b := by
+  refine ⟨costs_eq_of gs a b, ?_⟩
+  intro h
+  unfold costs
+  exact List.map_congr_left h
+
+theorem Sense.lt_ne (d : Sense) {a b : Int} (h : d.lt a b) : a ≠ b := by
+  cases d <;> simp only [Sense.lt] at h <;> omega
+
+theorem Sense.le_of_not_lt (d : Sense) {a b : Int} (h : ¬ d.lt a b) : d.le b a := by
+  cases d <;> simp only [Sense.lt, Sense.le] at * <;> omega
+
+theorem Sense.eq_of_le_not_lt (d : Sense) {a b : Int} (h1 : d.le a b) (h2 : ¬ d.lt a b) : a = b := by
+  cases d <;> simp only [Sense.lt, Sense.le] at * <;> omega
+
+/-- a model that nothing in `FeasB` dominates is Pareto-optimal among all feasible models -/
+theorem pareto_of_inner {goals : List (Nat × Goal)} {base : List Constraint} {found : List M} {p : M}
+    (hp : FeasB A obj goals base found p)
+    (hnd : ∀ m, FeasB A obj goals base found m → ¬ Dominates (specGoals obj goals) m p) :
+    ParetoOptimal (specGoals obj goals) (Feas A obj base []) p := by
+  refine ⟨hp.1, ?_⟩
+  rintro ⟨q, hq, hd⟩
+  refine hnd q ⟨hq, ?_⟩ hd
+  intro r hr
+  obtain ⟨g, hg, hlt⟩ := hp.2 r hr
+  exact ⟨g, hg, by
+    have := hd.1 g hg
+    cases hgd : g.1 <;> simp only [hgd, Sense.le, Sense.lt] at * <;> omega⟩
+
+/-- the front is complete once nothing feasible escapes the blocking clauses -/
+theorem front_complete {goals : List (Nat × Goal)} {base : List Constraint} {found : List M}
+    (hfound : ∀ p ∈ found, ParetoOptimal (specGoals obj goals) (Feas A obj base []) p)
+    (hnone : ∀ m, ¬ FeasB A obj goals base found m)
+    (m : M) (hm : ParetoOptimal (specGoals obj goals) (Feas A obj base []) m) :
+    ∃ p ∈ found, costs (specGoals obj goals) p = costs (specGoals obj goals) m := by
+  have h1 : ¬ ∀ p ∈ found, StrictSome (specGoals obj goals) m p := fun h => hnone m ⟨hm.1, h⟩
+  have h2 : ∃ r, r ∈ found ∧ ¬ StrictSome (specGoals obj goals) m r := by
+    apply Classical.byContradiction
+    intro hc
+    apply h1
+    intro p hp
+    apply Classical.byContradiction
+    intro hns
+    exact hc ⟨p, hp, hns⟩
+  obtain ⟨r, hr, hns⟩ := h2
+  refine ⟨r, hr, (costs_eq_iff _ _ _).2 ?_⟩
+  have hweak : WeakDom (specGoals obj goals) r m := by
+    intro g hg
+    exact Sense.le_of_not_lt g.1 (fun hlt => hns ⟨g, hg, hlt⟩)
+  have hnot : ¬ StrictSome (specGoals obj goals) r m := fun hs => hm.2 ⟨r, (hfound r hr).1, hweak, hs⟩
+  intro g hg
+  exact Sense.eq_of_le_not_lt g.1 (hweak g hg) (fun hlt => hnot ⟨g, hg, hlt⟩)
+
+/-- the yielded models are Pareto-optimal, have pairwise different cost vectors, and every
+    Pareto-optimal cost vector is among them -/
+def FrontOk (A : M → Prop) (obj : Nat → M → Int) (goals : List (Nat × Goal)) (base : List Constraint)
+    (found : List M) : Prop :=
+  (∀ p ∈ found, ParetoOptimal (specGoals obj goals) (Feas A obj base []) p) ∧
+  found.Pairwise (fun a b => costs (specGoals obj goals) a ≠ costs (specGoals obj goals) b) ∧
+  (∀ m, ParetoOptimal (specGoals obj goals) (Feas A obj base []) m →
+    ∃ p ∈ found, costs (specGoals obj goals) p = costs (specGoals obj goals) m)
+
+def OuterPost (A : M → Prop) (obj : Nat → M → Int) (goals : List (Nat × Goal)) (base : List Constraint)
+    (marks0 : List Nat) (bad0 : Bool) (r : Outcome (List (M × List Int)) × Solver M) : Prop :=
+  r.1 = .fuel ∨
+  ∃ found, r.1 = .done (accOf obj goals found) ∧ r.2.stack = base ∧ r.2.marks = marks0 ∧ r.2.bad = bad0 ∧
+    FrontOk A obj goals base found
+
+theorem paretoOuter_spec (hO : OracleSpec A obj o) (mx : Mixin) (goals : List (Nat × Goal)) (fuel : Nat)
+    (base : List Constraint) (marks0 : List Nat) (bad0 : Bool) :
+    ∀ (n : Nat) (found : List M) (cd : List Constraint) (s : Solver M),
+      OuterSt obj goals mx base marks0 bad0 found cd s →
+      (∀ p ∈ found, ParetoOptimal (specGoals obj goals) (Feas A obj base []) p) →
+      found.Pairwise (fun a b => costs (specGoals obj goals) a ≠ costs (specGoals obj goals) b) →
+      OuterPost A obj goals base marks0 bad0 (paretoOuter o obj mx goals fuel n cd (accOf obj goals found) s) := by
+  intro n
+  induction n with
+  | zero => intro found cd s _ _ _; exact Or.inl rfl
+  | succ n ih =>
+    intro found cd s hst hpo hpw
+    have hinner := paretoInner_spec hO mx goals cd s.stack (s.stack.length :: s.marks) s.bad fuel none s.push
+      ⟨rfl, rfl, [], by simp [Solver.push], by simp⟩ (fun p h => by cases h)
+    unfold paretoOuter
+    cases hr : paretoInner o obj mx goals cd fuel none s.push with
+    | mk out s2 =>
+    rw [hr] at hinner
+    rcases hinner with hfu | ⟨fin, hfin, hsome, hnone, e1, e2, added, e3⟩
+    · left; simp only at hfu; subst hfu; rfl
+    · simp only at hfin e1 e2 e3
+      subst hfin
+      obtain ⟨p1, p2, p3⟩ := pop_of_marks s2 s.stack.length s.marks e1
+      rw [e3, take_length_append] at p1
+      rw [e2] at p3
+      obtain ⟨m1, m2, m3⟩ := hst
+      cases fin with
+      | none =>
+        right
+        have hno : ∀ m, ¬ FeasB A obj goals base found m := fun m hm =>
+          hnone rfl m ((feasB_iff ⟨m1, m2, m3⟩ m).2 hm)
+        obtain ⟨q1, q2, q3⟩ := pop_of_marks s2.pop base.length marks0 (by rw [p2, m1])
+        refine ⟨found, rfl, ?_, q2, by rw [q3, p3, m2], hpo, hpw, front_complete hpo hno⟩
+        rw [q1, p1]
+        cases mx with
+        | sua => simp only at m3; rw [m3.2]; simp
+        | incr => simp only at m3; rw [m3]; exact take_length_append _ _
+      | some p =>
+        obtain ⟨hfp, hnd⟩ := hsome p rfl
+        have hfpB : FeasB A obj goals base found p := (feasB_iff ⟨m1, m2, m3⟩ p).1 hfp
+        have hpar : ParetoOptimal (specGoals obj goals) (Feas A obj base []) p :=
+          pareto_of_inner hfpB (fun m hm => hnd m ((feasB_iff ⟨m1, m2, m3⟩ m).2 hm))
+        have hpo' : ∀ q ∈ found ++ [p], ParetoOptimal (specGoals obj goals) (Feas A obj base []) q := by
+          intro q hq
+          rcases List.mem_append.1 hq with hq | hq
+          · exact hpo q hq
+          · have : q = p := by simpa using hq
+            subst this; exact hpar
+        have hpw' : (found ++ [p]).Pairwise
+            (fun a b => costs (specGoals obj goals) a ≠ costs (specGoals obj goals) b) := by
+          rw [List.pairwise_append]
+          refine ⟨hpw, by simp, ?_⟩
+          intro a ha b hb
+          have : b = p := by simpa using hb
+          subst this
+          obtain ⟨g, hg, hlt⟩ := hfpB.2 a ha
+          intro heq
+          exact Sense.lt_ne g.1 hlt ((costs_eq_of _ _ _ heq g hg).symm)
+        have hacc : accOf obj goals found ++ [(p, goals.map (fun (gi, _) => obj gi p))] =
+            accOf obj goals (found ++ [p]) := by simp [accOf]
+        have hblk : blocks obj goals (found ++ [p]) =
+            blocks obj goals found ++ [Constraint.disj (paretoAtoms obj true goals p)] := by simp [blocks]
+        simp only
+        rw [hacc]
+        cases mx with
+        | sua =>
+          simp only at m3
+          exact ih (found ++ [p]) _ s2.pop ⟨by rw [p2, m1], by rw [p3, m2], by rw [hblk, m3.1], by rw [p1, m3.2]⟩
+            hpo' hpw'
+        | incr =>
+          simp only at m3
+          exact ih (found ++ [p]) _ (s2.pop.add _) ⟨by simp only [Solver.add]; rw [p2, m1],
+            by simp only [Solver.add]; rw [p3, m2], by simp only [Solver.add]; rw [p1, m3, hblk, List.append_assoc]⟩
+            hpo' hpw'
+
 end
 end PySMT.Opt
